@@ -105,6 +105,8 @@ def fault_histories(workloads, cls, tier, rng, label, kind=None):
         n, bounds = count_calls(w, cls)
         ks = list(range(1, n + 1))
         limit = 420 if tier == "quick" else 100000
+        if w.get("every_k"):
+            limit = max(limit, 3000)
         if len(ks) > limit:
             ks = fault_positions(n, bounds, limit)
         for k in ks:
@@ -143,6 +145,7 @@ def check_c13(tier, seed):
     wl = [hgens.rw_workload(3, 1024, 0), hgens.rw_workload(4, None, 1), hgens.rw_workload(3, None, 2), hgens.rw_workload(3, None, 3)]
     if tier == "thorough":
         wl += [hgens.rw_workload(3, None, 1), hgens.rw_workload(4, 1024, 0), hgens.rw_workload(3, 2560, 1), hgens.rw_workload(4, 1024, 2), hgens.rw_workload(4, 1024, 3)]
+    wl += hgens.rw_small_workloads()
     hs = fault_histories(wl, "w", tier, rng, "rw")
     run_batch(out, "faults", "A", hs, spec="Trace_Handle", driver="hdrive")
     return finish(out, "fault_enumeration",
